@@ -2,7 +2,8 @@
    datetime elements by position id or by value; stale references are ignored, never raise.
 
    Model: Model/Shim.v (translate = _ElementIdShim.translate_element_id, shim_xf =
-   shimmed_dimension_transforms_dict, the consumers elem_xform / mentions / opp_index).
+   shimmed_dimension_transforms_dict - since /repo 51c19c01 a dict of the dimension's OWN, the
+   caller's dict stays as given -, the consumers elem_xform / mentions / opp_index).
    Spec:  Proofs/ShimSpec.v (levels L_*, spelling, ref, stale, wf, last_for).
    Only statements here; each is closed by [exact <lemma>] and followed by Print Assumptions.
 
@@ -69,13 +70,14 @@ Proof. exact (translate_stale d x). Qed.
 Print Assumptions C19_translate_stale.
 
 (* the result is always None or an alias of the dimension: nothing else can leak into the
-   rewritten transforms *)
+   translated transforms *)
 Theorem C19_translate_range d x a : translate d x = Ok a -> a = INone \/ In a (aliases d).
 Proof. exact (translate_range d x a). Qed.
 Print Assumptions C19_translate_range.
 
-(* None itself (a null in an id list; the second translation of a stale id that the first one
-   rewrote to None in the caller's dict) matches nothing and gives None.  REPAIRED defect
+(* None itself (a null in an id list) matches nothing and gives None.  (Since /repo 51c19c01 the
+   caller's dict is no longer rewritten, so a stale id is never translated a second time after
+   having become None.)  REPAIRED defect
    C19-none-reference-raises: before commit "fix: translate_element_id(None) returns None instead of
    raising TypeError" int(None) raised TypeError here. *)
 Theorem C19_translate_none d :
@@ -184,9 +186,9 @@ Print Assumptions C19_datetime_pos_value.
    elements AFTER it keep their own ids - a position id is the element's "id" field, not its rank
    among the non-missing elements - and int, digit-string and value spellings still agree *)
 Theorem C19_datetime_pos_value_after_missing pre m post p v :
-  dt_wf (pre ++ (m, DMissing) :: post) -> In (IInt p, DVal v) post ->
-  dt_translate (pre ++ (m, DMissing) :: post) (IInt p) = TId v /\
-  ((0 <= p)%Z -> dt_translate (pre ++ (m, DMissing) :: post) (IStr (dec p)) = TId v).
+  dt_wf (pre ++ (m, DMissing) :: post)%list -> In (IInt p, DVal v) post ->
+  dt_translate (pre ++ (m, DMissing) :: post)%list (IInt p) = TId v /\
+  ((0 <= p)%Z -> dt_translate (pre ++ (m, DMissing) :: post)%list (IStr (dec p)) = TId v).
 Proof. exact (dt_translate_position_after_missing pre m post p v). Qed.
 Print Assumptions C19_datetime_pos_value_after_missing.
 
